@@ -317,3 +317,128 @@ fn initialize_hyper_dash(cs: f32, palpable_objects: &mut [PalpableObject]) {
         last_dir = this_dir;
     }
 }
+
+/// Verification hooks (`--cfg rosu_pp_verif`): a copy of the per-object loop of `convert_objects`
+/// that calls the real `convert_object` / `apply_pos_offset` and records, per hit object, what they
+/// read and produce. No state is kept; callers compare with the real `convert_objects`.
+#[cfg(rosu_pp_verif)]
+pub mod verif {
+    use super::*;
+
+    /// What the loop did for one hit object.
+    #[derive(Clone, Debug)]
+    pub struct ConvStep {
+        /// 0: fruit, 1: juice stream, 2: banana shower
+        pub kind: u8,
+        pub x: f32,
+        pub start_time: f64,
+        /// juice stream: x of the last control point (0 if none)
+        pub last_control_x: f32,
+        /// juice stream: nested objects (kind 0 fruit / 1 droplet / 2 tiny droplet, x, time)
+        pub nested: Vec<(u8, f32, f64)>,
+        pub n_bananas: usize,
+        /// palpable objects produced: (x, x_offset, start_time)
+        pub palpables: Vec<(f32, f32, f64)>,
+        /// state after `apply_pos_offset`
+        pub last_pos: Option<f32>,
+        pub last_start_time: f64,
+        pub rng: [u32; 4],
+        pub bit_buf: u32,
+        pub bit_idx: i32,
+    }
+
+    pub fn convert_steps(map: &Beatmap, hr_offsets: bool) -> Vec<ConvStep> {
+        let mut count = ObjectCountBuilder::new_regular(usize::MAX);
+
+        let mut bufs = JuiceStreamBufs {
+            curve: CurveBuffers::default(),
+            nested_objects: Vec::with_capacity(16),
+            ticks: Vec::new(),
+        };
+
+        let mut rng = Random::new(RNG_SEED);
+        let mut last_pos = None;
+        let mut last_start_time = 0.0;
+        let mut steps = Vec::with_capacity(map.hit_objects.len());
+
+        for h in map.hit_objects.iter() {
+            let mut new_objects = convert_object(h, map, &mut count, &mut bufs);
+
+            let (kind, last_control_x, nested, n_bananas) = match new_objects.state {
+                ObjectIterState::Fruit(_) => (0, 0.0, Vec::new(), 0),
+                ObjectIterState::JuiceStream(ref stream) => (
+                    1,
+                    stream
+                        .control_points
+                        .last()
+                        .map_or(0.0, |control_point| control_point.pos.x),
+                    stream
+                        .nested_objects
+                        .as_slice()
+                        .iter()
+                        .map(|n| {
+                            let k = match n.kind {
+                                NestedJuiceStreamObjectKind::Fruit => 0,
+                                NestedJuiceStreamObjectKind::Droplet => 1,
+                                NestedJuiceStreamObjectKind::TinyDroplet => 2,
+                            };
+
+                            (k, n.pos, n.start_time)
+                        })
+                        .collect(),
+                    0,
+                ),
+                ObjectIterState::BananaShower(ref shower) => (2, 0.0, Vec::new(), shower.n_bananas),
+            };
+
+            let (x, start_time) = (new_objects.x, new_objects.start_time);
+
+            apply_pos_offset(
+                &mut new_objects,
+                hr_offsets,
+                &mut last_pos,
+                &mut last_start_time,
+                &mut rng,
+            );
+
+            let palpables = new_objects
+                .map(|p| (p.x, p.x_offset, p.start_time))
+                .collect();
+
+            let (bit_buf, bit_idx) = rng.verif_bit_state();
+
+            steps.push(ConvStep {
+                kind,
+                x,
+                start_time,
+                last_control_x,
+                nested,
+                n_bananas,
+                palpables,
+                last_pos,
+                last_start_time,
+                rng: rng.verif_state(),
+                bit_buf,
+                bit_idx,
+            });
+        }
+
+        steps
+    }
+
+    /// `(x, x_offset, start_time)` of the real `convert_objects` output.
+    pub fn converted(map: &Beatmap, reflect_horizontally: bool, hr_offsets: bool, cs: f32) -> Vec<(f32, f32, f64)> {
+        let mut count = ObjectCountBuilder::new_regular(usize::MAX);
+
+        let reflection = if reflect_horizontally {
+            Reflection::Horizontal
+        } else {
+            Reflection::None
+        };
+
+        convert_objects(map, &mut count, reflection, hr_offsets, cs)
+            .iter()
+            .map(|p| (p.x, p.x_offset, p.start_time))
+            .collect()
+    }
+}
